@@ -223,11 +223,14 @@ class FakeOS(object):
         self.w = world
 
     def kill(self, pid, sig):
-        self.w.kills.append(pid)
+        import signal
+        self.w.kills.append((pid, sig))
         for p in self.w.procs:
             if p.pid == pid:
-                p.alive = False
-                p.killed = True
+                # only SIGKILL cannot be caught: a hung replay may handle or ignore anything else and stay alive
+                if sig == signal.SIGKILL or not (p.busy is not None and p.busy[0] == 'hang'):
+                    p.alive = False
+                    p.killed = True
 
 
 def install(world, holder):
